@@ -138,7 +138,7 @@ def cmd_list(outdir, per_file, seed):
 
 def sh(cmd, timeout):
     try:
-        p = subprocess.run(cmd, shell=True, capture_output=True, text=True, timeout=timeout)
+        p = subprocess.run(cmd, shell=True, executable="/bin/bash", capture_output=True, text=True, timeout=timeout)
         return p.returncode, p.stdout + p.stderr
     except subprocess.TimeoutExpired:
         return 124, "timeout"
@@ -178,6 +178,8 @@ def cmd_run(outdir):
                         rc, out = sh(f"cd /verif && cp evidence/{p}.json /verif/target/mut-ev-{p}.json; ./check {p} quick 2>&1 | tail -30; rc=${{PIPESTATUS[0]}}; cp /verif/target/mut-ev-{p}.json evidence/{p}.json; rm -f /verif/target/replays/{p}-* 2>/dev/null; exit $rc", 3600)
                         sigs = sorted(set(re.findall(r"signature=(\S+)", out)))[:4]
                         verdicts[p] = {"rc": rc, "sigs": sigs}
+                        if rc == 1:
+                            break
                     res["checks"] = verdicts
                     if any(v["rc"] == 1 for v in verdicts.values()):
                         res["status"] = "detected"
